@@ -76,6 +76,20 @@ CLAIMS["C12"] = (
     "node-set expression of the C04 pool.",
     CLAIMS["C01"][2], "DESIGN.md 4/C12")
 
+CLAIMS["C11"] = (
+    "TLA+ union denotation (XSem.tla union/seqstep) explored by TLC over all documents up to 4-5 nodes whose element "
+    "names contain '-' and digits (a, a-1, a-1-1, b1), with repeated values, attributes, text, comments x all operand "
+    "pairs of a path pool; replay requires each node exactly once",
+    "Bounded-exhaustive model checking of A|B, nested unions and p/(a, b): overlapping, disjoint and equal operands; "
+    "identity confusion between distinct nodes is searched by enumerating names and shapes systematically.",
+    CLAIMS["C01"][2], "DESIGN.md 4/C11")
+CLAIMS["C13"] = (
+    "TLA+ identities checked by TLC as theorems of the denotation (MC_Compose.tla Sanity) and the composed / wrapped "
+    "expressions replayed on the engine from every start node",
+    "Bounded-exhaustive: every node n of every document up to 4-5 nodes and the catalogue as start node; /addr(n)/p vs p "
+    "at n for all 1-2 step relative paths over 12 axes (with predicates); wrappers P[true()], (P), P|P, not(not(P)).",
+    CLAIMS["C01"][2], "DESIGN.md 4/C13")
+
 NOT_YET = "check not built yet in this round (see DESIGN.md section 9 for the construction order)"
 
 
